@@ -400,8 +400,8 @@ fn c16_slicing_frame_by_frame() {
 
 // @harness
 // @prop C16
-// @tier quick
-// @timeout 900
+// @tier thorough
+// @timeout 3000
 // @fn Emulator::emulate_frames (FrameCount(n), Max, breakpoint stop and resume); Emulator::set_speed; Emulator::set_debug_interface; ZXController::pc_callback; ZXController::wait_internal; ZXController::reset_frame_counter; ZXController::take_events
 // @sym machine, start frame time, a program of 4 instruction lengths (1..frame-1 T each) and end PCs, host slicing: maximum-speed mode with arbitrary stopwatch readings and time limit, stopwatch readings
 // @assert whatever the slicing, after the host has driven the machine the emulated time is a function of the instructions executed only: clock == (start + sum of executed lengths) mod frame, frame ends counted == (start + sum) div frame; FrameCount(2) in one call and FrameCount(1) twice stop after the same instruction (the first that completes the second frame); a breakpoint stop loses nothing and the resume continues with the next instruction; max-speed mode stops only at a frame end
